@@ -351,7 +351,7 @@ func c05RunBatch(c *Ctx, r *rng.R, b *run.Batch, cs []*c05Case) {
 		}
 		if obs == want {
 			c.Ev.Count("trees_matching_precedence_climbing", 1)
-			if jid%211 == 0 {
+			if c.Ev.WantSample() && nops >= 2 {
 				c.Ev.Sample(map[string]any{"lox": cc.Lox, "input": tokString(cc.G, it.w), "tree": obs})
 			}
 			continue
